@@ -24,7 +24,7 @@
 use crate::error::{ReductionError, Result};
 #[cfg(not(feature = "blas"))]
 use linfa_linalg::{lobpcg::TruncatedSvd, Order};
-use ndarray::{s, Array1, Array2, ArrayBase, Axis, Data, Ix2};
+use ndarray::{Array1, Array2, ArrayBase, Axis, Data, Ix2};
 #[cfg(feature = "blas")]
 use ndarray_linalg::{TruncatedOrder, TruncatedSvd};
 use rand::{prelude::SmallRng, SeedableRng};
@@ -113,10 +113,26 @@ impl<T, D: Data<Elem = f64>> Fit<ArrayBase<D, Ix2>, T, ReductionError> for PcaPa
             .precision(precision)
             .decompose(nvecs)?;
         // explained variance is the spectral distribution of the eigenvalues
-        let (_, sigma, v_t) = result.values_vectors();
-        let keep = usize::min(sigma.len(), self.embedding_size);
-        let sigma = sigma.slice_move(s![..keep]);
-        let mut v_t = v_t.slice_move(s![..keep, ..]);
+        let (u, sigma, v_t) = result.values_vectors();
+        // The solver can return the singular values in order but attached to each other's vectors (its symmetric
+        // eigensolver transposes two small eigenpairs), or a vector that is not normalised. Take every singular
+        // value from its own pair of vectors (u_j = X v_j / sigma_j), normalise, and restore the order.
+        let mut pairs: Vec<(f64, Array1<f64>)> = sigma
+            .iter()
+            .zip(u.columns())
+            .zip(v_t.rows())
+            .map(|((s, u), v)| {
+                let (nu, nv) = (u.dot(&u).sqrt(), v.dot(&v).sqrt());
+                (s * nu * nv, v.to_owned() / nv.max(f64::MIN_POSITIVE))
+            })
+            .collect();
+        pairs.sort_by(|a, b| b.0.partial_cmp(&a.0).unwrap_or(std::cmp::Ordering::Equal));
+        pairs.truncate(self.embedding_size);
+        let sigma: Array1<f64> = pairs.iter().map(|p| p.0).collect();
+        let mut v_t = Array2::zeros((pairs.len(), v_t.ncols()));
+        for (mut row, p) in v_t.rows_mut().into_iter().zip(pairs.iter()) {
+            row.assign(&p.1);
+        }
 
         // cut singular values to avoid numerical problems
         let sigma = sigma.mapv(|x| x.max(1e-8));
